@@ -367,6 +367,34 @@ pub fn random_text_notation(rng: &mut Rng, allow_alpha: bool) -> Colour {
 /// Image strings drawn from characters legal in XML 1.0, excluding TAB/LF/CR (attribute-value
 /// normalisation would make "equals" ill-defined).
 pub fn random_image_string(rng: &mut Rng) -> String {
+    // references whose FIRST bytes mean something to somebody: bare base64 of the common image headers (PNG, JPEG,
+    // GIF, WebP, "<svg", "<?xml") and paths that merely begin like them, scheme-less and fragment-only references,
+    // other URI schemes - an image reference is written out as it was given, whatever it looks like
+    const MAGIC: [&str; 20] = [
+        "iVBORw0KGgoAAAANSUhEUgAAAAEAAAABCAYAAAAfFcSJAAAADUlEQVR4nGNgYGBgAAAABQABh6FO1AAAAABJRU5ErkJggg==",
+        "iVBORw0KGgo/icons/logo.png",
+        "/9j/4AAQSkZJRgABAQ",
+        "/9j/brand/logo.jpg",
+        "R0lGODlhAQABAAAAACw=",
+        "R0lGODs/spinner.gif",
+        "UklGRiQAAABXRUJQVlA4",
+        "PHN2ZyB4bWxucz0iaHR0cDovL3d3dy53My5vcmcvMjAwMC9zdmciLz4=",
+        "PD94bWwgdmVyc2lvbj0iMS4wIj8+",
+        "//cdn.example.com/x.png",
+        "#logo",
+        "?v=2",
+        "blob:https://example.com/9115d58c-bcda-ff47-86e5-083e9a215304",
+        "file:///C:/logo.png",
+        "javascript:void(0)",
+        "data:,",
+        "data:image/svg+xml;utf8,<svg xmlns='http://www.w3.org/2000/svg'/>",
+        "<svg xmlns='http://www.w3.org/2000/svg'/>",
+        "%PDF-1.7",
+        "-",
+    ];
+    if rng.chance(1, 5) {
+        return rng.pick(&MAGIC).to_string();
+    }
     const FIXED: [&str; 12] = [
         "https://example.com/logo.png",
         "https://e.com/?a=1&b=2",
